@@ -230,19 +230,25 @@ class Tap:
         return getattr(self._inner, name)
 
     def frames(self):
-        """Acknowledged frames: length and body write both returned.  -> [(bytes, ctx)]"""
+        """Acknowledged frames: every write call that carries a part of the frame returned.  -> [(bytes, ctx)]
+
+        The calls are read as one byte stream (length prefix, body), however the writer chooses to split a
+        frame over calls (length and body separately, as one call, or several frames per call).  A refused
+        call ends the frame it belongs to: what was accepted of that frame is dropped, the next call starts afresh.
+        """
         out = []
-        calls = self.calls
-        i = 0
-        while i < len(calls):
-            b, ok, ctx = calls[i]
-            if len(b) == 4 and ok and i + 1 < len(calls):
-                body, ok2, ctx2 = calls[i + 1]
-                if ok2 and int.from_bytes(b, "big") == len(body):
-                    out.append((b + body, ctx2))
-                    i += 2
-                    continue
-            i += 1
+        pend = b""
+        for b, ok, ctx in self.calls:
+            if not ok:
+                pend = b""
+                continue
+            pend += b
+            while len(pend) >= 4:
+                size = int.from_bytes(pend[:4], "big")
+                if len(pend) < 4 + size:
+                    break
+                out.append((pend[: 4 + size], ctx))
+                pend = pend[4 + size :]
         return out
 
 
